@@ -18,6 +18,8 @@ NOTES = {   # what happened on the FIRST trial of a change, and what was strengt
     "C15-2": "first trial: caught only as disagreement on the cursor. Proved the sharper bound C15_no_starvation_churn (the coarse bound does not exclude this change: C15_reset_variant_refuted) and added the churn monitor + flapping corpus.",
     "C14-2": "caught in the first batch, missed after the generator changed (it needs unreachable-then-left); membership episodes now produce that sequence in every run.",
     "C06-2": "a defect of the balancer (loadBalancer.Remove) with a routing symptom: C06's clusters use scripted upstream sets and do not go through go-away double removal; C05 and C15 decide it.",
+    "C18-1": "first trial: MISSED by C18 (single-loss scenarios only: the leaver never remembered an earlier departure). Scenarios now include a fourth node that left or crashed before the loss; notified-not-left counts as recorded-state evidence when Shutdown returned without any timeout (the failure depends on the shuffle of the leaver's peers).",
+    "C18-2": "first trial: MISSED by C18 (with two survivors everybody is notified directly), C03/C11 only disagreed. C18 got a six-node scenario (Leave notifies four of five peers, the fifth must end as left, not unreachable) and the rule rest-not-following; C03's convergence phase now removes nodes that left from the rounds, so their final state has to reach everybody through relays, and counts them in the verdict.",
     "C05-1": "C20: the regenerated lock-edge table no longer satisfies the lock-order proof (the translator half of the tie), and the stress harness shows the stale advertisement.",
 }
 
